@@ -474,12 +474,19 @@ fn main() {
                     }
                 }
                 let f3: Vec<_> = vgad::default_faults(seed).into_iter().filter(|(n, _)| ["+1", "zero", "random"].contains(n)).collect();
+                // wall shares (thorough): the map sweeps must not starve the registry sweep
+                if tier.is_thorough() {
+                    cx.next_group_share(240.0);
+                }
                 cx.run_cases("map-faults", &mf, |(c, k, idxs)| {
                     let mut out = CaseOut::batch();
                     vgad::explore_faults(c, *k, idxs, &f3, &mut out);
                     out
                 });
                 let f1: Vec<_> = f3.iter().filter(|(n, _)| tier.is_thorough() || *n == "+1").cloned().collect();
+                if tier.is_thorough() {
+                    cx.next_group_share(180.0);
+                }
                 cx.run_cases("map-kind-faults", &mkf, |(c, k, idxs)| {
                     let mut out = CaseOut::batch();
                     vgad::explore_faults(c, *k, idxs, &f1, &mut out);
@@ -592,6 +599,7 @@ fn main() {
         }
         let cfg = vgad::laws::Cfg { max_combinations: 200_000, max_real_runs: 4, ..Default::default() };
         let max_regions = 48usize;
+        cx.next_group_share(360.0);
         cx.run_cases("laws", &lcases, |c| {
             let mut out = CaseOut::batch();
             vgad::laws::explore_all(c, kof(c).unwrap(), &cfg, max_regions, &mut out);
